@@ -1,1 +1,34 @@
-fn main(){ eprintln!("echeck: not built yet"); std::process::exit(2) }
+mod common;
+mod c01;
+
+use vcore::{parse_args, Run};
+
+fn main() {
+    let args = parse_args();
+    vcore::install_panic_hook();
+    let run = Run::new(&args, "exploration");
+    let id = args.prop.to_uppercase();
+    type RunFn = fn(&Run);
+    type ReplayFn = fn(&Run, &serde_json::Value) -> bool;
+    let (run_fn, replay_fn): (RunFn, ReplayFn) = match id.as_str() {
+        "C01" => (c01::run, c01::replay),
+        other => {
+            eprintln!("echeck: no end-to-end check for {other}");
+            std::process::exit(2);
+        }
+    };
+    if let Some(doc) = run.replay_doc() {
+        if !replay_fn(&run, &doc) {
+            eprintln!("echeck: replay file not understood by {id}");
+            std::process::exit(2);
+        }
+        std::process::exit(run.finish());
+    }
+    for (_path, doc) in run.regress_docs() {
+        if doc["engine"].as_str() == Some("echeck") {
+            replay_fn(&run, &doc);
+        }
+    }
+    run_fn(&run);
+    std::process::exit(run.finish());
+}
